@@ -113,4 +113,51 @@ theorem c07_consts : Gen.cdParams.minP = 50 ∧ Gen.cdParams.maxP = 1000 ∧ Gen
 /-- non-vacuity: 120 ms from t0 = 1000 with callbacks every 50 ms: finishes at 1150 (≥ 1120) -/
 example : (runTicks { channel := 3, left := 120, last := 1000 } [1050, 1100, 1150, 1200]).2 = some 1150 := by decide
 
+/-! ### the published remaining time belongs to the channel's own timer -/
+
+theorem tickAll_length (now : Nat) (items : List CdItem) : ∀ pub, (cdTickAll now items pub).2.length = pub.length := by
+  induction items with
+  | nil => intro pub; rfl
+  | cons i is ih =>
+    intro pub
+    simp only [cdTickAll]
+    rw [ih]
+    split <;> simp
+
+/-- **C07.4a** the callback leaves the published value of a channel alone unless a running item belongs to it -/
+theorem c07_published_untouched (now : Nat) (items : List CdItem) (c : Nat) :
+    ∀ pub, (∀ i ∈ items, i.running → i.channel ≠ c) → (cdTickAll now items pub).2.getD c 0 = pub.getD c 0 := by
+  induction items with
+  | nil => intro pub _; rfl
+  | cons i is ih =>
+    intro pub h
+    simp only [cdTickAll]
+    rw [ih _ (fun j hj => h j (by simp [hj]))]
+    by_cases hr : i.running ∧ i.channel < pub.length
+    · rw [if_pos hr]
+      have hne := h i (by simp) hr.1
+      simp [List.getD_eq_getElem?_getD, List.getElem?_set_ne hne]
+    · rw [if_neg hr]
+
+/-- **C07.4b (published = own timer)** if no two running items share a channel (`supla_esp_countdown_timer_countdown`
+    reuses the item of the channel), then after the callback the published value of the channel of every running item
+    is that item's new remaining time (0 once it finished) - whatever slot of the table the item occupies -/
+theorem c07_published_is_own_timer (now : Nat) (items : List CdItem) :
+    ∀ pub, List.Pairwise (fun a b => a.running → b.running → a.channel ≠ b.channel) items →
+    ∀ i ∈ items, i.running → i.channel < pub.length →
+      (cdTickAll now items pub).2.getD i.channel 0 = (i.tick now).1.left := by
+  induction items with
+  | nil => intro _ _ i hi; cases hi
+  | cons j js ih =>
+    intro pub hp i hi hr hc
+    rw [List.pairwise_cons] at hp
+    simp only [cdTickAll]
+    rcases List.mem_cons.mp hi with rfl | hmem
+    · -- the head item: it writes, nothing behind it touches the entry
+      rw [c07_published_untouched now js i.channel _ (fun k hk hkr => (hp.1 k hk hr hkr).symm)]
+      rw [if_pos ⟨hr, hc⟩]
+      simp [List.getD_eq_getElem?_getD, hc]
+    · apply ih _ hp.2 i hmem hr
+      split <;> simp [hc]
+
 end SuplaVerif.C07
